@@ -55,7 +55,7 @@ def cfg(tier, which):
 
 
 def budget(tier):
-    return 3000 if tier == "quick" else 80000
+    return 5000 if tier == "quick" else 80000
 
 
 def strategy(tier):
